@@ -97,6 +97,34 @@ def check_printer(res, rule, owner_name, printer, fields_of_interest: Set[str], 
                     if txt.strip(" \n,") != "":
                         slot = None if not txt.rstrip().endswith(("(", "{", "[", "=")) else slot
                 continue
+            # a helper that formats keyword arguments (`name=repr(value)` for each **kwargs item): every keyword is a printed slot
+            if isinstance(op, ast.Call) and isinstance(op.func, ast.Name) and op.func.id in printer.module.functions \
+                    and printer.module.functions[op.func.id].node.args.kwarg is not None and op.keywords and current_call is not None:
+                helper = printer.module.functions[op.func.id].node
+                htxt = unparse(helper)
+                if ".items()" in htxt and "'='" in htxt and ("__repr__" in htxt or "repr(" in htxt):
+                    callee, feeds = feeds_lookup(current_call)
+                    for kw_ in op.keywords:
+                        if kw_.arg is None:
+                            continue
+                        roots = d.roots_at(node, _strip_len(kw_.value))
+                        flds = {r.split(".")[1] for r in roots if r.startswith("self.") and r.count(".") >= 1} & fields_of_interest
+                        if not flds:
+                            continue
+                        printed |= flds
+                        if callee is None:
+                            continue
+                        n_slots += 1
+                        if kw_.arg not in callee.params():
+                            res.fail_at(rule, printer, f"kw:{kw_.arg}", f"{owner_name} prints keyword '{kw_.arg}=' but {callee.qualname} has no such parameter", op)
+                            continue
+                        fed = feeds.get(kw_.arg, set())
+                        wrong = sorted(f for f in flds if f not in fed)
+                        if wrong:
+                            res.fail_at(rule, printer, f"slot:{kw_.arg}", f"{owner_name} prints field(s) {wrong} under parameter '{kw_.arg}' of {callee.qualname}, which feeds {sorted(fed)}", op)
+                        else:
+                            res.ok(rule, f"{owner_name}: '{kw_.arg}' <- {sorted(flds)} (through {op.func.id})", {"callee": callee.qualname, "feeds": sorted(fed)})
+                    continue
             roots = d.roots_at(node, _strip_len(op))
             fields = {r.split(".")[1] for r in roots if r.startswith("self.") and r.count(".") >= 1}
             fields &= fields_of_interest
@@ -180,6 +208,7 @@ def run(program, res, tier):
         total_slots += check_printer(res, "C12-S1", k.name + ".to_python_src_", pr, interest, lookup, required, str_ok,
                                      EQUIVALENT.get(k.name, {}))
     res.expect_count("C12-S1", "printed slots", total_slots, 18)
+    _s4_optional_omission(program, model, res)
     # RecordMap / RecordSpecification __repr__ against their constructors
     for cname in ("RecordSpecification", "RecordMap"):
         cls = program.cls("cdata", cname)
@@ -217,6 +246,57 @@ def run(program, res, tier):
     _s2(program, res)
     _s2b(program, res)
     _s3(program, res)
+
+
+# optional fields that can hold a falsy value different from "not given" (0 is a limit; None is no limit)
+FALSY_MEANINGFUL = {("OrderRowsNode", "limit"): "limit=0 keeps no rows, limit=None keeps all"}
+
+
+def _s4_optional_omission(program, model, res):
+    """an optional argument is left out of the print only when it has the builder's default: for a field whose falsy values differ
+    from 'not given', the condition must be an `is not None` test, not truthiness (directly, or inside a formatting helper)"""
+    n = 0
+    for (kname, field), why in FALSY_MEANINGFUL.items():
+        k = model.kinds.get(kname)
+        if k is None:
+            raise AnalysisError(f"anchor vanished: {kname}")
+        pr = k.method("to_python_src_")
+        mod = pr.module
+        g = cfgmod.build(pr.node)
+        found = False
+        # (a) guarded print:  if <cond>: s = s + "... field=" + self.field.__repr__()
+        for nd in g.stmt_nodes(("stmt",)):
+            if f"self.{field}" in unparse(nd.stmt) and isinstance(nd.stmt, (ast.Assign, ast.AugAssign)) and f"{field}=" in unparse(nd.stmt):
+                guards = [b for b, _l in g.lexical_guards(nd) if f"self.{field}" in unparse(b.cond)]
+                found = True
+                n += 1
+                if guards and all(isinstance(b.cond, ast.Compare) and isinstance(b.cond.ops[0], (ast.IsNot, ast.Is)) for b in guards):
+                    res.ok("C12-S1", f"{kname}: `{field}` is printed whenever it is not None ({why})")
+                elif not guards:
+                    res.ok("C12-S1", f"{kname}: `{field}` is always printed")
+                else:
+                    res.fail_at("C12-S1", pr, f"omitted-when-falsy:{field}",
+                                f"{kname}.to_python_src_ prints `{field}=` under `{unparse(guards[0].cond)}`: a falsy value that is not the default is left out "
+                                f"({why}), so the printed pipeline rebuilds a different step", guards[0].stmt)
+        # (b) through a keyword-formatting helper
+        for c in ast.walk(pr.node):
+            if isinstance(c, ast.Call) and isinstance(c.func, ast.Name) and c.func.id in mod.functions and any(
+                    kw.arg == field and f"self.{field}" in unparse(kw.value) for kw in c.keywords):
+                found = True
+                n += 1
+                helper = mod.functions[c.func.id].node
+                truthy = [gen for comp in ast.walk(helper) if isinstance(comp, (ast.ListComp, ast.GeneratorExp, ast.DictComp)) for gen in comp.generators
+                          for i in gen.ifs if isinstance(i, ast.Name)]
+                truthy += [i for i in ast.walk(helper) if isinstance(i, ast.If) and isinstance(i.test, ast.Name)]
+                if truthy:
+                    res.fail_at("C12-S1", pr, f"omitted-when-falsy:{field}",
+                                f"{kname}.to_python_src_ prints `{field}` through {c.func.id}(), which leaves out every falsy value: {why}, so "
+                                f"`{field}=0` is not printed and the rebuilt step differs", c)
+                else:
+                    res.ok("C12-S1", f"{kname}: `{field}` printed through {c.func.id}() without a truthiness filter")
+        if not found:
+            raise AnalysisError(f"{kname}.to_python_src_: the print of `{field}` was not found")
+    return n
 
 
 def _s2(program, res):
